@@ -209,6 +209,9 @@ class Public_key(object):
             xy = G.mul_add(u1, self.point, u2)
         else:
             xy = u1 * G + u2 * self.point
+        if xy == ellipticcurve.INFINITY:
+            # u1*G + u2*Q is the point at infinity: not a valid signature
+            return False
         v = xy.x() % n
         return v == r
 
